@@ -13,6 +13,12 @@ CHECK = {
         unit("sys", "vault", ["vault/c02_test.go", "vault/c02sys_test.go"], "^TestVerif_C02_Sys$",
              quick={"checks": 80, "shards": 1, "cap": 900, "steps": 30},
              thorough={"checks": 400, "shards": 16, "cap": 3000, "steps": 60}),
+        unit("policy-race", "vault", ["vault/c02race_test.go"], "^TestVerif_C02_PolicyRace$",
+             quick={"checks": 120, "shards": 1, "cap": 900},
+             thorough={"checks": 800, "shards": 16, "cap": 3000},
+             # which of two tasks gets a lock that has just been released is the Go runtime's choice, so a failing
+             # schedule need not fail again on re-run; the verdict is a fact about the history that did happen
+             flaky_is_violation=True),
         unit("http", "http", ["http/c02_http_test.go"], "^TestVerif_C02_HTTP$",
              quick={"checks": 500, "shards": 1, "cap": 900},
              thorough={"checks": 2000, "shards": 16, "cap": 3000}),
